@@ -124,8 +124,10 @@ class WBSlave(Agent):
         self.silenced = 0
         self.returned = False
         self.err_adr = None       # set of addresses that always answer err
+        self.key_shift = 0        # byte-addressed Wishbone: memory words are keyed by adr >> 2
 
     def read_word(self, adr):
+        adr = (adr >> self.key_shift) << self.key_shift
         return self.mem.get(adr, self.init(adr) & self.mask)
 
     def _silent(self, t):
@@ -169,7 +171,7 @@ class WBSlave(Agent):
                         for i in range(self.nsel):
                             if (v[b.sel] >> i) & 1:
                                 new = (new & ~(0xff << (8 * i))) | (v[b.dat_w] & (0xff << (8 * i)))
-                        self.mem[adr] = new
+                        self.mem[(adr >> self.key_shift) << self.key_shift] = new
                 self.log.append({"t": t, "we": v[b.we], "adr": adr, "dat_w": v[b.dat_w], "sel": v[b.sel], "err": self.cur_err})
                 self.bench.event(self.name, "xfer", t, v[b.we], adr, v[b.dat_w] if v[b.we] else None, v[b.sel])
                 self.n += 1
